@@ -123,10 +123,10 @@ def _perm(code, n):
     return out
 
 
-def case_st(k):
+def case_st(k, chains=False):
     @st.composite
     def build(draw):
-        spec = draw(st.one_of(
+        spec = draw(G.chain_spec(min_n=8, max_n=18, kinds=("scale", "cb", "next", "prev", "lin"))) if chains else draw(st.one_of(
             G.dag_spec(kinds=KINDS),
             G.dag_spec(kinds=KINDS),
             G.ring_spec(modes=["none", "suff", "suff_split", "suff_multi", "partial", "partial"]),
@@ -248,6 +248,8 @@ def topology_case(k):
 def parts():
     return [
         Part("permutations", check, strategy=case_st(4), budget={"quick": 500, "thorough": 0}, shrink_budget=250),
+        # one dependency path of 8-18 components: identity = source-first, reversal = sink-first (most connect rounds)
+        Part("long_chain_permutations", check, strategy=case_st(4, chains=True), budget={"quick": 60, "thorough": 3000}, shrink_budget=80),
         Part("permutations8", check, strategy=case_st(8), budget={"quick": 0, "thorough": 20000}, shrink_budget=250),
         Part("topology_permutations", check_topology, strategy=topology_case(4), budget={"quick": 1500, "thorough": 60000}, fuzz={"thorough": 10000}),
         Part("connect_permutations", check_connect, strategy=connect_case(4), budget={"quick": 600, "thorough": 40000}),
